@@ -1,9 +1,9 @@
 SPECIFICATION Spec
 CONSTANTS
-  N = 4
-  Mode = "complete"
-  Overlap = FALSE
-  Vals = {1, 2, 3}
+  N = 3
+  Mode = "union"
+  Overlap = TRUE
+  Vals = {1}
 INVARIANTS
   SizesAddUp
   TreeShape
